@@ -598,7 +598,7 @@ def phase_flat(ctx, phase):
     depth = phase.get("depth", 5)
     emit = bool(phase.get("paths"))
     with_alias = bool(phase.get("alias"))
-    tlc.write_model(d, "MC_SqlFlat", dict(MaxDepth=depth, SrcSel=phase.get("srcs", [1, 6]), EmitPaths=emit, WithAlias=with_alias), {}, view="View",
+    tlc.write_model(d, "MC_SqlFlat", dict(MaxDepth=depth, SrcSel=phase.get("srcs", [1, 6]), EmitPaths=emit, WithAlias=with_alias, StaleRefs=False), {}, view="View",
                     invariants=["KindsAgree", "KindsConservative"])
     found = []
     paths = []
@@ -875,3 +875,88 @@ def phase_proofs(ctx, phase):
     ctx.tlc_runs.append(dict(profile="tlaps-proofs", states=0, distinct=0, obligations=r["proved"], wall=round(_t.time() - t0, 1), mode="TLAPS (SMT back end)"))
     shutil.rmtree(d, ignore_errors=True)
     return None
+
+
+def _joinnames_exec(cfgs):
+    """worker: performs the joins of MC_JoinNames configurations on the real code (Polars tables of one row)"""
+    import polars as pl
+    import pydiverse.transform as pdt
+    from pydiverse.transform import export, join
+
+    out = []
+    for c in cfgs:
+        left = pdt.Table(pl.DataFrame({n: [1] for n in c["l"]}), name="t1")
+        right = pdt.Table(pl.DataFrame({n: [1] for n in c["r"]}), name="t2")
+        rec = dict(c=c, out=[], err="", exp=[])
+        try:
+            on = "a" if c["onmode"] == "same" else (left.lk == right.rk)
+            kw = dict(suffix=c["usfx"]) if c["usfx"] else {}
+            res = left >> join(right, on, how="inner", **kw)
+            rec["out"] = [col.name for col in res]
+            try:
+                rec["exp"] = list((res >> export(pdt.Polars())).columns)
+            except Exception as e:  # noqa: BLE001
+                rec["exp"] = ["!" + type(e).__name__]
+        except Exception as e:  # noqa: BLE001
+            rec["err"] = type(e).__name__
+            rec["msg"] = str(e)[:200]
+        out.append(rec)
+    return out
+
+
+def phase_joinnames(ctx, phase):
+    """C06: the documented suffix rule as a TLA+ predicate over EVERY configuration of visible names (MC_JoinNames.tla):
+    TLC enumerates, the code performs each join, TLC judges the recorded names."""
+    lu = phase.get("lu", ["a", "b", "a_t2", "b_t2", "a_t2_1", "b_t2_1", "a_x"])
+    ru = phase.get("ru", ["a", "b", "c", "a_t2"])
+    d = tlc.prepare(f"{ctx.prop}-joinnames-{os.getpid()}", ctx.seed)
+    common = "LuDef == " + tlc.tla_lit(lu) + "\nRuDef == " + tlc.tla_lit(ru) + '\nUsDef == {"", "_t2", "_x"}\n'
+
+    def write(mode):
+        with open(os.path.join(d, "Run.tla"), "w") as f:
+            f.write("---- MODULE Run ----\nEXTENDS MC_JoinNames\n" + common + "====\n")
+        with open(os.path.join(d, "Run.cfg"), "w") as f:
+            f.write(f'CONSTANTS\n  Mode = "{mode}"\n  Lu <- LuDef\n  Ru <- RuDef\n  UserSuffixes <- UsDef\n  Auto = "_t2"\nINIT Init\nNEXT Next\nCHECK_DEADLOCK FALSE\n')
+
+    write("gen")
+    cfgs = []
+    tlc.run(d, workers=1, timeout=300, on_json=cfgs.append)
+    n = 16
+    futs = [ctx.get_pool().submit(_joinnames_exec, cfgs[w::n]) for w in range(n)]
+    recs = [r for fu in futs for r in fu.result()]
+    path = os.path.join(d, "joinnames.ndjson")
+    with open(path, "w") as f:
+        for r in recs:
+            f.write(json.dumps(dict(c=r["c"], out=r["out"], err=r["err"])) + "\n")
+    write("check")
+    verdicts = []
+    res = tlc.run(d, workers=1, timeout=600, on_json=verdicts.append, extra_env=dict(VERIF_JOINNAMES=path))
+    if len(verdicts) != len(recs):
+        raise tlc.TlcError(f"MC_JoinNames judged {len(verdicts)} of {len(recs)} recorded joins")
+    counts = {}
+    mink = dict(minimal=0, other=0)
+    for v in verdicts:
+        r = recs[v["i"] - 1]
+        counts[v["verdict"]] = counts.get(v["verdict"], 0) + 1
+        c = r["c"]
+        jm = dict(v="join", i=1, j=2, how="inner", suffix=c["usfx"], on=[dict(k="str", n="a")] if c["onmode"] == "same" else [])
+        if v["verdict"] != "ok":
+            ctx.failures.append(dict(clause="names", backend="polars", step=0, tainted=False, src=["names"], srcidx=0, exc=r["err"] or None,
+                                     detail=f"join names: {v['verdict']}: left {c['l']} right {c['r']} on={c['onmode']} suffix={c['usfx']!r} -> "
+                                            f"{r['out'] or r['err']} {r.get('msg', '')}",
+                                     moves=[jm], heap_obs=[], beh=r))
+        elif not r["err"] and r["exp"] != r["out"]:
+            ctx.failures.append(dict(clause="names", backend="polars", step=0, tainted=False, src=["names"], srcidx=0,
+                                     detail=f"join names: export columns {r['exp']} differ from the table's column names {r['out']}: left {c['l']} right {c['r']}",
+                                     moves=[jm], heap_obs=[], beh=r))
+        if v["mink"] >= 0:
+            sfx = "_t2" if v["mink"] == 0 else f"_t2_{v['mink']}"
+            took_min = any(x.endswith(sfx) for x in r["out"][len(c["l"]):])
+            mink["minimal" if took_min else "other"] += 1
+    ctx.extra["join_names"] = dict(configurations=len(recs), verdicts=counts, numeric_suffix=mink,
+                                   universe=dict(left=lu, right=ru, user_suffixes=["", "_t2", "_x"], on=["keys", "same"]))
+    ctx.behaviours += len(recs)
+    ctx.replay_stats["steps_new"] = ctx.replay_stats.get("steps_new", 0) + len(recs)
+    ctx.replay_stats["nontrivial"] = ctx.replay_stats.get("nontrivial", 0) + sum(1 for r in recs if set(r["c"]["l"]) & set(r["c"]["r"]))
+    ctx.tlc_runs.append(dict(profile="join-names", states=0, distinct=0, configurations=len(recs), mode="TLC enumerates configurations, then judges the recorded outcomes"))
+    return d
